@@ -82,6 +82,51 @@ def defaultAt : List AtEntry :=
 def parseScript (s : String) : Option (List Text) :=
   if s == "-" then none else some ((splitC s ',').map unhexs)
 
+/-- wire format of a regex (see `harness/translate.py: wire`): prefix notation -/
+partial def parseReToks : List String → Option (Re × List String)
+  | [] => none
+  | t :: rest =>
+    let tag := t.take 1 |>.toString
+    let arg := (t.drop 1).toString
+    if tag == "E" then some (.eps, rest)
+    else if tag == "S" then do
+      let (a, r1) ← parseReToks rest
+      let (b, r2) ← parseReToks r1
+      some (.seq a b, r2)
+    else if tag == "A" then do
+      let (a, r1) ← parseReToks rest
+      let (b, r2) ← parseReToks r1
+      some (.alt a b, r2)
+    else if tag == "G" then do
+      let (a, r1) ← parseReToks rest
+      some (.group arg.toNat! a, r1)
+    else if tag == "B" then
+      let kind := match arg with
+        | "0" => "beginning" | "1" => "beginning_string" | "2" => "end" | _ => "end_string"
+      some (.at kind, rest)
+    else if tag == "R" then
+      match rest with
+      | lo :: hi :: r0 => do
+        let (a, r1) ← parseReToks r0
+        some (.rep (arg == "1") lo.toNat! (if hi == "N" then none else some hi.toNat!) a, r1)
+      | _ => none
+    else if tag == "C" then
+      match rest with
+      | n :: r0 =>
+        let k := n.toNat!
+        let items := (r0.take k).map (fun it =>
+          let h := (it.take 1).toString
+          let v := (it.drop 1).toString
+          if h == "l" then CC.lit (Char.ofNat v.toNat!)
+          else if h == "r" then
+            match v.splitOn "_" with
+            | [a, b] => CC.range (Char.ofNat a.toNat!) (Char.ofNat b.toNat!)
+            | _ => CC.cat "none"
+          else if h == "d" then CC.cat "digit" else CC.cat "space")
+        some (.chars (arg == "1") items, r0.drop k)
+      | _ => none
+    else none
+
 def parseAt (s : String) : List AtEntry :=
   if s == "default" then defaultAt
   else if s == "-" then []
@@ -91,6 +136,10 @@ def parseAt (s : String) : List AtEntry :=
       let cmd := String.ofList (unhexs c)
       let m : Text → Bool :=
         if p == "N" then fun _ => true
+        else if p.startsWith "X" then
+          match parseReToks (splitC (p.drop 1).toString '.') with
+          | some (re, _) => fun t => (matchAt re t.toArray 0).isSome
+          | none => fun _ => false
         else match Gen.defaultAtActions[p.toNat!]? with
           | some (_, re, _) => fun t => (matchAt re t.toArray 0).isSome
           | none => fun _ => false
